@@ -235,3 +235,111 @@ theorem iban_swap_seam (first last : Ch) (mid : List Ch) (hm : AllValid mid) (hl
     (hf : first.w = 10 ∧ first.i < 10) (hl : last.w = 10 ∧ last.i < 10) (hne : first.i ≠ last.i)
     (h1 : num (first :: mid ++ [last]) % 97 = 1) : num (last :: mid ++ [first]) % 97 ≠ 1 :=
   detect_wrap_swap first last mid hf.1 hl.1 (W10_of_allValid _ hm) hlen hf.2 hl.2 hne h1
+
+/-! ## Position-level statements over the IBAN text itself (`rearr` = what the code feeds to numerify) -/
+
+def rearr (l : List Ch) : List Ch := l.drop 4 ++ l.take 4
+
+theorem decomp (l : List Ch) (i : ℕ) (h : i < l.length) :
+    l = l.take i ++ l[i] :: l.drop (i + 1) := by
+  conv_lhs => rw [← List.take_append_drop i l]
+  rw [List.drop_eq_getElem_cons h]
+
+theorem rearr_bban (A B : List Ch) (x : Ch) (hA : 4 ≤ A.length) :
+    rearr (A ++ x :: B) = (A.drop 4 ++ x :: B) ++ A.take 4 := by
+  unfold rearr
+  rw [List.drop_append_of_le_length hA, List.take_append_of_le_length hA]
+
+theorem allValid_take (l : List Ch) (n : ℕ) (h : AllValid l) : AllValid (l.take n) :=
+  fun c hc => h c (List.mem_of_mem_take hc)
+
+theorem allValid_drop (l : List Ch) (n : ℕ) (h : AllValid l) : AllValid (l.drop n) :=
+  fun c hc => h c (List.mem_of_mem_drop hc)
+
+/-- a same-kind substitution at any BBAN position (i ≥ 4) of a text whose rearranged number is ≡ 1 is detected -/
+theorem iban_subst_at_bban (l : List Ch) (i : ℕ) (y : Ch) (hv : AllValid l) (hy : Valid y)
+    (hi4 : 4 ≤ i) (hil : i < l.length) (hw : l[i].w = y.w) (hne : l[i].i ≠ y.i)
+    (h1 : num (rearr l) % 97 = 1) : num (rearr (l.set i y)) % 97 ≠ 1 := by
+  have hA : 4 ≤ (l.take i).length := by simp [List.length_take]; omega
+  have hd := decomp l i hil
+  have hx : Valid l[i] := hv _ (List.getElem_mem hil)
+  rw [List.set_eq_take_cons_drop y hil, rearr_bban _ _ _ hA]
+  rw [hd, rearr_bban _ _ _ hA] at h1
+  exact iban_subst _ _ _ _ _ (allValid_drop l (i + 1) hv) (allValid_take _ 4 (allValid_take l i hv)) hx hy hw hne h1
+
+theorem rearr_head1 (A B : List Ch) (x : Ch) (hA : A.length < 4) :
+    rearr (A ++ x :: B) = (B.drop (3 - A.length) ++ A) ++ x :: B.take (3 - A.length) := by
+  unfold rearr
+  rw [List.drop_append, List.take_append]
+  have h1 : A.drop 4 = [] := List.drop_eq_nil_of_le (by omega)
+  have h2 : A.take 4 = A := List.take_of_length_le (by omega)
+  have h3 : 4 - A.length = (3 - A.length) + 1 := by omega
+  rw [h1, h2, h3, List.drop_succ_cons, List.take_succ_cons]
+  simp
+
+theorem rearr_head2 (A B : List Ch) (x y : Ch) (hA : A.length ≤ 2) :
+    rearr (A ++ x :: y :: B) = (B.drop (2 - A.length) ++ A) ++ x :: y :: B.take (2 - A.length) := by
+  unfold rearr
+  rw [List.drop_append, List.take_append]
+  have h1 : A.drop 4 = [] := List.drop_eq_nil_of_le (by omega)
+  have h2 : A.take 4 = A := List.take_of_length_le (by omega)
+  have h3 : 4 - A.length = (2 - A.length) + 1 + 1 := by omega
+  rw [h1, h2, h3, List.drop_succ_cons, List.drop_succ_cons, List.take_succ_cons, List.take_succ_cons]
+  simp
+
+/-- a same-kind substitution at a check-digit position (i = 2 or 3; indeed any i < 4) is detected -/
+theorem iban_subst_at_head (l : List Ch) (i : ℕ) (y : Ch) (hv : AllValid l) (hy : Valid y)
+    (hi4 : i < 4) (hil : i < l.length) (hw : l[i].w = y.w) (hne : l[i].i ≠ y.i)
+    (h1 : num (rearr l) % 97 = 1) : num (rearr (l.set i y)) % 97 ≠ 1 := by
+  have hA : (l.take i).length < 4 := by simp [List.length_take]; omega
+  have hd := decomp l i hil
+  have hx : Valid l[i] := hv _ (List.getElem_mem hil)
+  rw [List.set_eq_take_cons_drop y hil, rearr_head1 _ _ _ hA]
+  rw [hd, rearr_head1 _ _ _ hA] at h1
+  have e : ∀ (P S : List Ch) (z : Ch), P ++ z :: S = (P ++ z :: S) ++ [] := by simp
+  rw [e] at h1
+  rw [e]
+  exact iban_subst [] _ _ _ _ (allValid_take _ _ (allValid_drop l (i + 1) hv)) (by intro c hc; simp at hc) hx hy hw hne h1
+
+/-- THE substitution statement of C03: any position i ≥ 2 (indeed any position) -/
+theorem iban_subst_at (l : List Ch) (i : ℕ) (y : Ch) (hv : AllValid l) (hy : Valid y)
+    (hil : i < l.length) (hw : l[i].w = y.w) (hne : l[i].i ≠ y.i)
+    (h1 : num (rearr l) % 97 = 1) : num (rearr (l.set i y)) % 97 ≠ 1 := by
+  by_cases h : i < 4
+  · exact iban_subst_at_head l i y hv hy h hil hw hne h1
+  · exact iban_subst_at_bban l i y hv hy (by omega) hil hw hne h1
+
+/-- adjacent transposition at position |A| | |A|+1, any position except the seam 3 | 4 -/
+theorem iban_swap_at (A B : List Ch) (x y : Ch) (hv : AllValid (A ++ x :: y :: B))
+    (hw : x.w = y.w) (hne : x.i ≠ y.i) (hA : A.length ≠ 3)
+    (h1 : num (rearr (A ++ x :: y :: B)) % 97 = 1) : num (rearr (A ++ y :: x :: B)) % 97 ≠ 1 := by
+  have hx : Valid x := hv x (by simp)
+  have hy : Valid y := hv y (by simp)
+  have hAv : AllValid A := fun c hc => hv c (by simp [hc])
+  have hBv : AllValid B := fun c hc => hv c (by simp [hc])
+  by_cases h4 : 4 ≤ A.length
+  · rw [rearr_bban A (y :: B) x h4] at h1
+    rw [rearr_bban A (x :: B) y h4]
+    exact iban_swap_adjacent _ _ _ _ _ hBv (allValid_take A 4 hAv) hx hy hw hne h1
+  · have h2 : A.length ≤ 2 := by omega
+    rw [rearr_head2 A B x y h2] at h1
+    rw [rearr_head2 A B y x h2]
+    have e : ∀ (P S : List Ch) (u v : Ch), P ++ u :: v :: S = (P ++ u :: v :: S) ++ [] := by simp
+    rw [e] at h1
+    rw [e]
+    exact iban_swap_adjacent [] _ _ _ _ (allValid_take B _ hBv) (by intro c hc; simp at hc) hx hy hw hne h1
+
+/-- adjacent transposition across the seam: second check digit | first BBAN character (positions 3 | 4) -/
+theorem iban_swap_at_seam (A B : List Ch) (x y : Ch) (hv : AllValid (A ++ x :: y :: B)) (hA : A.length = 3)
+    (hx : x.w = 10 ∧ x.i < 10) (hy : y.w = 10 ∧ y.i < 10) (hne : x.i ≠ y.i) (hlen : B.length + 3 ≤ 47)
+    (h1 : num (rearr (A ++ x :: y :: B)) % 97 = 1) : num (rearr (A ++ y :: x :: B)) % 97 ≠ 1 := by
+  have hAv : AllValid A := fun c hc => hv c (by simp [hc])
+  have hBv : AllValid B := fun c hc => hv c (by simp [hc])
+  have r1 : ∀ (u v : Ch), rearr (A ++ u :: v :: B) = v :: (B ++ A) ++ [u] := by
+    intro u v
+    have := rearr_head1 A (v :: B) u (by omega)
+    rw [this, hA]
+    simp
+  rw [r1 x y] at h1
+  rw [r1 y x]
+  exact iban_swap_seam y x (B ++ A) (allValid_append B A hBv hAv) (by simp [hA]; omega) hy hx (Ne.symm hne) h1
